@@ -13,6 +13,7 @@ import (
 	"math"
 	"net/netip"
 	"os"
+	"sync"
 	"time"
 
 	"github.com/google/gopacket/layers"
@@ -29,6 +30,8 @@ type sackDriver struct {
 	buffer []byte
 	parser *packets.FrameParser
 
+	// mu guards against concurrent access to sendTimes
+	mu        sync.Mutex
 	sendTimes []time.Time
 	localAddr netip.Addr
 	localPort uint16
@@ -69,10 +72,9 @@ func (s *sackDriver) SendProbe(ttl uint8) error {
 		return fmt.Errorf("sackDriver asked to send invalid TTL %d", ttl)
 	}
 	// store the send time for the RTT later when we receive the response
-	if !s.sendTimes[ttl].IsZero() {
-		return fmt.Errorf("sackDriver asked to send probe for TTL %d but it was already sent", ttl)
+	if err := s.storeSendTime(ttl); err != nil {
+		return err
 	}
-	s.sendTimes[ttl] = time.Now()
 
 	gen := sackPacketGen{
 		ipPair: s.ExpectedIPPair().Flipped(),
@@ -95,6 +97,17 @@ func (s *sackDriver) SendProbe(ttl uint8) error {
 	}
 	return nil
 }
+
+func (s *sackDriver) storeSendTime(ttl uint8) error {
+	s.mu.Lock()
+	defer s.mu.Unlock()
+	if !s.sendTimes[ttl].IsZero() {
+		return fmt.Errorf("sackDriver asked to send probe for TTL %d but it was already sent", ttl)
+	}
+	s.sendTimes[ttl] = time.Now()
+	return nil
+}
+
 func (s *sackDriver) ReceiveProbe(timeout time.Duration) (*common.ProbeResponse, error) {
 	if !s.IsHandshakeFinished() {
 		return nil, fmt.Errorf("sackDriver hasn't finished ReadHandshake()")
@@ -155,10 +168,13 @@ func (s *sackDriver) getRTTFromRelSeq(relSeq uint32) (time.Duration, error) {
 	if relSeq < uint32(s.params.ParallelParams.MinTTL) || relSeq > uint32(s.params.ParallelParams.MaxTTL) {
 		return 0, fmt.Errorf("getRTTFromRelSeq: invalid relative sequence number %d", relSeq)
 	}
-	if s.sendTimes[relSeq].IsZero() {
+	s.mu.Lock()
+	sendTime := s.sendTimes[relSeq]
+	s.mu.Unlock()
+	if sendTime.IsZero() {
 		return 0, fmt.Errorf("getRTTFromRelSeq: no probe sent for relative sequence number %d", relSeq)
 	}
-	return time.Since(s.sendTimes[relSeq]), nil
+	return time.Since(sendTime), nil
 }
 
 var errPacketDidNotMatchTraceroute = &common.ReceiveProbeNoPktError{Err: fmt.Errorf("packet did not match the traceroute")}
